@@ -17,6 +17,9 @@ def units(tier):
                 us.append(Unit(H.AddIsoHybridMacWithoutEfi))
             else:
                 us.append(Unit(H.AddIsoHybrid, {'efi': efi, 'mac': mac}))
+    # EFI / Mac support without the EFI boot images it describes is refused (K66)
+    us += [Unit(H.AddIsoHybrid, {'efi': True, 'mac': False, 'n_efi': 0}), Unit(H.AddIsoHybrid, {'efi': True, 'mac': True, 'n_efi': 1}),
+           Unit(H.AddIsoHybrid, {'efi': True, 'mac': True, 'n_efi': 0}), Unit(H.AddIsoHybrid, {'efi': True, 'mac': False, 'n_efi': 3})]
     for (h, s) in geoms[:6]:
         us.append(Unit(H.RecordPadding, {'heads': h, 'sectors': s}))
         us.append(Unit(H.RecordPadding, {'heads': h, 'sectors': s, 'efi': True}))
